@@ -179,7 +179,9 @@ pub fn uci_stream(args: &[String]) {
                 5 => "isready".to_string(),
                 6 => "ucinewgame".to_string(),
                 7 => {
-                    let opts = ["setoption name Hash value 16", "setoption name value", "setoption value x name y", "setoption name Move Overhead value 30", "setoption name", "setoption", "setoption name Threads", "setoption name A value", "stop", "uci"];
+                    let opts = ["setoption name Hash value 16", "setoption name value", "setoption value x name y", "setoption name Move Overhead value 30", "setoption name", "setoption", "setoption name Threads", "setoption name A value", "stop", "uci",
+                        "position", "position fen", "position fen 8/8/8/8/8/8/8/8 w - -", "position fen rnbqkbnr/pppppppp/8/8/8/8/PPPPPPPP/RNBQKBNR w KQkq -", "setoption x name", "setoption Hash name", "setoption value name",
+                        "position moves e2e4", "position startpos moves", "position startpos e2e4", "setoption name Hash value", "isready extra tokens"];
                     opts[rng.below(opts.len() as u64) as usize].to_string()
                 }
                 _ => junk_line(&mut rng),
